@@ -313,6 +313,65 @@ theorem unmap_stops_partial {P h s} (t : Trace P h s) (hf : HazardFree h) (a : N
           exact (binding_filter st id _).2
         rw [hq2', this] at hb2; cases hb2
 
+/-- **The non-realtime half refines the specification of the learn table** (partial) — along
+    a hazard-free history every step changes the pair (learn queue, controller ↦ parameter)
+    exactly as `Table.step` prescribes: `map` queues once and forgets the old controller,
+    `unMap` stops exactly the controller of `(a,k)`, a request is served with the OLDEST
+    queued address, everything else leaves the table alone.  This one statement contains
+    `assigned_to_oldest`, `bindings_independent` and `unmap_stops` for the non-realtime half. -/
+theorem nrt_refines_table_partial {P h s} (t : Trace P h s) (hf : HazardFree h)
+    {op s' out} (hwf : op.wf P) (hz : hazard s op = false) (hs : step P s op = some (s', out)) :
+    tableOf s'.nrt = (tableOf s.nrt).step op s.toNRT.head? := by
+  have hi := inv_of_trace t hf
+  cases op with
+  | map a k =>
+    simp only [step] at hs
+    cases hm : s.nrt.map a k with
+    | none => simp [hm] at hs
+    | some r =>
+      obtain ⟨n', ms⟩ := r
+      simp [hm] at hs; obtain ⟨rfl, _⟩ := hs
+      exact map_table hi.nrt hwf hm
+  | unmap a k =>
+    simp only [step] at hs
+    cases hm : s.nrt.unMap a k with
+    | none => simp [hm] at hs
+    | some r =>
+      obtain ⟨n', ms⟩ := r
+      simp [hm] at hs; obtain ⟨rfl, _⟩ := hs
+      exact unMap_table hi.nrt hm
+  | clear =>
+    simp [step, NRT.clear] at hs; obtain ⟨rfl, _⟩ := hs
+    simp only [tableOf, Table.step, Table.clear, Table.mk.injEq, true_and]
+    funext x; simp [NRT.binding, Storage.binding, Storage.empty]
+  | cc id v =>
+    have := (bindings_independent_partial t hf hwf hz hs).2.2.1 (Or.inl ⟨id, v, rfl⟩)
+    simp [Table.step, this]
+  | deliverRT =>
+    have := (bindings_independent_partial t hf hwf hz hs).2.2.1 (Or.inr rfl)
+    simp [Table.step, this]
+  | deliverNRT =>
+    cases hq : s.toNRT with
+    | nil => simp [step, hq] at hs; obtain ⟨rfl, _⟩ := hs; simp [Table.step]
+    | cons id rest =>
+      cases hl : s.nrt.learnQ with
+      | nil => simp [hazard, hazardK1, hq, hl] at hz
+      | cons x q =>
+        obtain ⟨a, k⟩ := x
+        simp only [step, hq] at hs
+        cases hu : NRT.useFreeID P s.nrt id with
+        | none => simp [hu] at hs
+        | some r =>
+          obtain ⟨n', ms⟩ := r
+          simp [hu] at hs; obtain ⟨rfl, _⟩ := hs
+          simpa [Table.step] using useFreeID_table hi.nrt hl (hi.c1 id (by simp [hq])) hu
+
+/-- **K1 needs `clear`** — in a history without `clear` no request ever meets an empty
+    learn queue (watches and queued addresses stay in balance): `triggerK1` is false. -/
+theorem triggerK1_needs_clear (P : List PortSpec) (ops : List Op) (h : Op.clear ∉ ops) :
+    triggerK1 P ops = false :=
+  k1_free_without_clear P ops Sys.init h (by simp [Sys.credits, Sys.init, RT.init, NRT.init, watchesOf])
+
 /-- **no_crash** (partial) — along a hazard-free history no step on well-formed input
     indexes outside a vector (`killMap`, `handleCC`, `cloneValues`). -/
 theorem no_crash_partial {P h s} (t : Trace P h s) (hf : HazardFree h) {op} (hwf : op.wf P)
